@@ -2,7 +2,10 @@
 
 package boltz
 
-import "time"
+import (
+	"bytes"
+	"time"
+)
 
 // Round-trip lemmas for stored values (C13). Each composes a setter with a getter; the verifier checks the
 // postcondition against the contracts of the two calls only (never their bodies), so a lemma holds exactly as long
@@ -59,4 +62,30 @@ func verifFieldCheckerSkips(b *TypedBucket, name string, other string, v string,
 	before := b.GetString(other)
 	b.SetString(name, v, fc)
 	return before, b.GetString(other)
+}
+
+// compound keys: decoding an encoded list gives the list back
+func verifRoundTripCompound(values []string) ([]string, error) {
+	key, err := EncodeStringSlice(values)
+	if err != nil {
+		return nil, err
+	}
+	return DecodeStringSlice(key)
+}
+
+// compound keys: two lists with the same encoding are the same list (true is returned iff both encode, to the same bytes)
+func verifCompoundInjective(a, b []string) bool {
+	ka, err := EncodeStringSlice(a)
+	if err != nil {
+		return false
+	}
+	kb, err := EncodeStringSlice(b)
+	if err != nil {
+		return false
+	}
+	if !bytes.Equal(ka, kb) {
+		return false
+	}
+	_, _ = DecodeStringSlice(ka)
+	return true
 }
